@@ -478,6 +478,23 @@ func (e *SpecEnv) selector(n *SSel) Value {
 					}
 				}
 			}
+			// the qualifier names the package the expression is evaluated in (an assumed
+			// contract of an interface method is evaluated in the interface's package)
+			if e.pkg.Name() == id.Name {
+				if o := e.pkg.Scope().Lookup(n.Name); o != nil {
+					return e.object(o)
+				}
+			}
+			// ... or a package the unit's package imports
+			if x.unitFn != nil && x.unitFn.Pkg != nil && x.unitFn.Pkg.Pkg != e.pkg {
+				for _, imp := range x.unitFn.Pkg.Pkg.Imports() {
+					if imp.Name() == id.Name {
+						if o := imp.Scope().Lookup(n.Name); o != nil {
+							return e.object(o)
+						}
+					}
+				}
+			}
 		}
 	}
 	base := e.eval(n.X)
